@@ -12,15 +12,15 @@ variable {P : PyChars}
 /-! ### writability is a property of the content -/
 
 def FieldOKC (P : PyChars) (kv : Str × Val) : Prop :=
-  SimpleText kv.1 ∧ strip P kv.1 = kv.1 ∧ ∃ v, kv.2 = .str v ∧ EncVal P v
+  KeyOK P kv.1 ∧ strip P kv.1 = kv.1 ∧ ∃ v, kv.2 = .str v ∧ EncVal P v
 
 def BlockOKC (P : PyChars) : Content → Prop
   | .entry ty k fs =>
     (∀ c ∈ ty, P.isWord c = true) ∧ lower P ty = ty ∧ strip P ty = ty ∧
     startsWith "comment".toList ty = false ∧ startsWith "preamble".toList ty = false ∧
-    startsWith "string".toList ty = false ∧ SimpleText k ∧ strip P k = k ∧
+    startsWith "string".toList ty = false ∧ KeyOK P k ∧ strip P k = k ∧
     (∀ kv ∈ fs, FieldOKC P kv) ∧ (fs.map (·.1)).Nodup
-  | .string k v => SimpleText k ∧ strip P k = k ∧ ∃ s, v = .str s ∧ EncBal P s
+  | .string k v => KeyOK P k ∧ strip P k = k ∧ ∃ s, v = .str s ∧ EncBal P s
   | .preamble v => CleanVal P v
   | .expl c => CleanVal P c ∧ strip P c = c
   | .impl c => c ≠ [] ∧ strip P c = c ∧ noStart P c = true
@@ -35,11 +35,11 @@ theorem blockOK_iff (b : Block) :
       rw [List.map_map]; rfl
     constructor
     · intro h
-      refine ⟨⟨h.tyWord, h.tyLower, h.tyStrip, h.tyNotComment, h.tyNotPreamble, h.tyNotString, h.keySimple,
+      refine ⟨⟨h.tyWord, h.tyLower, h.tyStrip, h.tyNotComment, h.tyNotPreamble, h.tyNotString, h.keyOK,
         h.keyStrip, ?_, ?_⟩, ?_⟩
       · intro kv hkv
         obtain ⟨f, hf, rfl⟩ := List.mem_map.mp hkv
-        exact ⟨(h.fields f hf).keySimple, (h.fields f hf).keyStrip, (h.fields f hf).value⟩
+        exact ⟨(h.fields f hf).keyOK, (h.fields f hf).keyStrip, (h.fields f hf).value⟩
       · rw [hkeys]; exact h.fieldKeys
       · intro e' he'; injection he' with he'; injection he' with he'; subst he'; exact h.md
     · rintro ⟨⟨h1, h2, h3, h4, h5, h6, h7, h8, h9, h10⟩, hm⟩
